@@ -467,7 +467,10 @@ class Roles:
                  record_arrays: Optional[Dict[str, Sequence[str]]] = None, same_length: Sequence[Sequence[str]] = (),
                  min_len: Optional[Dict[str, int]] = None, emit_lists: Sequence[str] = (),
                  real_seqs: Sequence[str] = (), len_offset: Optional[Dict[str, Tuple[str, int]]] = None,
-                 compare_hook: Optional[Callable[[ast.Compare, 'Translator'], Optional[tuple]]] = None):
+                 compare_hook: Optional[Callable[[ast.Compare, 'Translator'], Optional[tuple]]] = None,
+                 array_of: Optional[Callable[[ast.AST], Optional[str]]] = None,
+                 scalar_of: Optional[Callable[[ast.AST, 'Translator'], Optional[tuple]]] = None,
+                 skip_assign: Sequence[str] = ()):
         self.arrays = dict(arrays)            # name -> 'strict' | 'nonstrict' | None (payload / unordered)
         self.reals = set(reals)
         self.ints = set(ints)
@@ -478,6 +481,9 @@ class Roles:
         self.real_seqs = set(real_seqs)       # sequences of reals only iterated over (for x in xs)
         self.len_offset = dict(len_offset or {})   # derived sequence -> (base sequence, k): len(derived) = len(base) + k
         self.compare_hook = compare_hook      # predicate abstraction: a comparison of the source as an IR condition
+        self.array_of = array_of              # expression of the source -> name of the (abstract) sequence it denotes
+        self.scalar_of = scalar_of            # expression of the source -> IR expression (the query in another spelling)
+        self.skip_assign = set(skip_assign)   # locals that only name a derived sequence (array_of resolves their uses)
 
 
 class Translator:
@@ -549,11 +555,38 @@ class Translator:
 
     # -- expressions -------------------------------------------------------------------
     def arr_name(self, e) -> Optional[str]:
+        if self.roles.array_of is not None:
+            a = self.roles.array_of(e)
+            if a is not None:
+                return a
         if isinstance(e, ast.Name) and e.id in self.roles.arrays:
             return e.id
         return None
 
+    def first_index(self, e) -> Optional[tuple]:
+        """next((i for i in range(..) if cond), default): the least index of the range satisfying cond, else default."""
+        if not (isinstance(e, ast.Call) and isinstance(e.func, ast.Name) and e.func.id == 'next' and len(e.args) == 2
+                and isinstance(e.args[0], ast.GeneratorExp) and len(e.args[0].generators) == 1):
+            return None
+        g = e.args[0]
+        c = g.generators[0]
+        if not (isinstance(c.target, ast.Name) and isinstance(g.elt, ast.Name) and g.elt.id == c.target.id and len(c.ifs) == 1
+                and isinstance(c.iter, ast.Call) and isinstance(c.iter.func, ast.Name) and c.iter.func.id == 'range'
+                and 1 <= len(c.iter.args) <= 2 and not c.is_async):
+            return None
+        args = [self.expr(a) for a in c.iter.args]
+        lo, hi = (('int', 0), args[0]) if len(args) == 1 else (args[0], args[1])
+        self.int_vars.add(c.target.id)
+        return ('first', c.target.id, lo, hi, self.expr(c.ifs[0]), self.expr(e.args[1]))
+
     def expr(self, e) -> tuple:
+        if self.roles.scalar_of is not None:
+            hit = self.roles.scalar_of(e, self)
+            if hit is not None:
+                return hit
+        fi = self.first_index(e)
+        if fi is not None:
+            return fi
         if isinstance(e, ast.Constant):
             if isinstance(e.value, bool):
                 return ('bool', e.value)
@@ -650,6 +683,8 @@ class Translator:
             return []
         if isinstance(s, ast.Assign) and len(s.targets) == 1:
             t = s.targets[0]
+            if isinstance(t, ast.Name) and t.id in self.roles.skip_assign:
+                return []
             if isinstance(t, ast.Name):
                 if isinstance(s.value, (ast.List, ast.ListComp)) and t.id in self.roles.emit_lists:
                     if isinstance(s.value, ast.List) and not s.value.elts:
@@ -752,7 +787,7 @@ def ir_walk_exprs(x, f) -> None:
             ir_walk_exprs(y, f)
     elif isinstance(x, tuple):
         if x and isinstance(x[0], str) and x[0] in ('int', 'num', 'var', 'len', 'elem', 'obj', 'attr', 'add', 'sub', 'neg', 'mul', 'div',
-                                                    'fdiv', 'opaque', 'cmp', 'and', 'or', 'not', 'bool', 'ite', 'bisect', 'min', 'max', 'abs'):
+                                                    'fdiv', 'opaque', 'cmp', 'and', 'or', 'not', 'bool', 'ite', 'bisect', 'min', 'max', 'abs', 'first'):
             f(x)
         for y in x[1:]:
             if isinstance(y, (tuple, list)):
@@ -811,6 +846,8 @@ class Concrete:
         if k == 'attr':
             b = self.ev(e[1])
             if isinstance(b, tuple) and b and b[0] == 'obj':
+                if f'{b[1]}.{e[2]}' in self.env:
+                    return self.env[f'{b[1]}.{e[2]}'][b[2]]        # an ordered field given as numbers
                 return A.sym(f'{b[1]}.{e[2]}[{b[2]}]')
             raise ConcreteStop('unknown', 'attribute of a non-record')
         if k in ('add', 'sub', 'mul', 'div', 'fdiv'):
@@ -858,6 +895,22 @@ class Concrete:
             return not self.truth(e[1])
         if k == 'ite':
             return self.ev(e[2]) if self.truth(e[1]) else self.ev(e[3])
+        if k == 'first':
+            lo, hi = self.ev(e[2]), self.ev(e[3])
+            if not isinstance(lo, int) or not isinstance(hi, int):
+                raise ConcreteStop('unknown', 'range bounds')
+            saved = self.env.get(e[1], None)
+            try:
+                for j in range(lo, hi):
+                    self.env[e[1]] = j
+                    if self.truth(e[4]):
+                        return j
+            finally:
+                if saved is None:
+                    self.env.pop(e[1], None)
+                else:
+                    self.env[e[1]] = saved
+            return self.ev(e[5])
         if k in ('min', 'max'):
             a, b = self.ev(e[1]), self.ev(e[2])
             if isinstance(a, (A.RF, tuple)) or isinstance(b, (A.RF, tuple)):
@@ -1045,6 +1098,8 @@ def show(e) -> str:
         return f'{k}({show(e[1])}, {show(e[2])})'
     if k == 'abs':
         return f'abs({show(e[1])})'
+    if k == 'first':
+        return f'first {e[1]} in range({show(e[2])}, {show(e[3])}) with {show(e[4])}, else {show(e[5])}'
     if k == 'bisect':
         return f'bisect_{e[1]}({e[2]}, {show(e[3])}, {show(e[4])}, {show(e[5])})'
     return str(e[1]) if len(e) > 1 else k
@@ -1223,6 +1278,39 @@ class Abstract:
             return AVal('unk')
         if k in ('cmp', 'and', 'or', 'not'):
             return AVal('bool', f=self.cond(e, st))
+        if k == 'first':
+            # r = the least j in [lo, hi) with cond(j), else the default.  Consequences used (instances of the exact
+            # meaning at j = r, r - 1 and hi - 1): lo <= r < hi and cond(r) and (r = lo or not cond(r-1)), or
+            # r = default and (hi <= lo or not cond(hi-1)) and (hi <= lo or not cond(lo)).
+            lo, hi, dflt = self.ev(e[2], st), self.ev(e[3], st), self.ev(e[5], st)
+            if lo.kind != 'int' or hi.kind != 'int' or dflt.kind != 'int':
+                return AVal('int', lin=self.new_int('first'))
+            r = self.new_int('first')
+
+            def cond_at(lin: Lin):
+                probe = st.copy()
+                probe.env[e[1]] = AVal('int', lin=lin)
+                n0 = len(probe.facts)
+                rec, self.record = self.record, False
+                try:
+                    f = self.cond(e[4], probe)
+                finally:
+                    self.record = rec
+                side = probe.facts[n0:]
+                return f, (f_and(*side) if side else T)
+            one = Lin.const(1)
+            c_r, s_r = cond_at(r)
+            c_p, s_p = cond_at(r - one)
+            c_l, s_l = cond_at(hi.lin - one)
+            c_0, s_0 = cond_at(lo.lin)
+            found = f_and(f_le(lo.lin, r), f_lt(r, hi.lin), s_r, c_r, f_or(f_eq(r, lo.lin), f_and(s_p, f_not(c_p))))
+            none = f_and(f_eq(r, dflt.lin), f_or(f_le(hi.lin, lo.lin), f_and(s_l, f_not(c_l), s_0, f_not(c_0))))
+            if self.record:
+                # every index the scan can touch must be in range: lo and hi - 1
+                self.obligations.append(Obligation(None, f'index in range over the scan: {show(e)}',
+                                                   f_or(f_le(hi.lin, lo.lin), f_and(s_0, s_l)), st.copy(), 'index'))
+            st.add(f_or(found, none))
+            return AVal('int', lin=r)
         if k in ('min', 'max'):
             a, b = self.ev(e[1], st), self.ev(e[2], st)
             if a.kind not in ('int', 'real') or b.kind not in ('int', 'real') or a.lin is None or b.lin is None:
